@@ -1,28 +1,8 @@
 """C19 — An error while processing any tile is reported, never swallowed by parallelism."""
 PROPERTY = "C19"
 LEVEL = "other"
-CONTRACT_MODULES = ["contracts.specfuns", "contracts.lemmas_desc", "contracts.pyramid", "contracts.parallel", "contracts.walk", "contracts.reducer", "contracts.lemmas_embed", "contracts.generator", "contracts.image", "contracts.merge", "contracts.pyramidio", "contracts.study", "contracts.multitan", "contracts.multiwcs", "contracts.toastsample", "contracts.toastgeom", "contracts.toastgen", "contracts.progressc"]
-FUNCTIONS = [
-    "toasty.par_util.ensure_workers_ok",
-    "toasty.par_util.put_checking_workers",
-    "toasty.par_util.join_workers",
-    "toasty.pyramid.Pyramid._walk_serial",
-    "toasty.pyramid.Pyramid._visit_leaves_serial",
-    "toasty.transform._do_a_transform",
-    "toasty.pyramid._mp_walk_worker",
-    "toasty.pyramid._mp_visit_worker",
-    "toasty.transform._transform_mp_worker",
-    "toasty.pyramid.Pyramid._walk_parallel",
-    "toasty.pyramid.Pyramid._visit_leaves_parallel",
-    "toasty.transform._transform_parallel",
-    "toasty.multi_tan.MultiTanProcessor._tile_parallel",
-    "toasty.multi_tan._mp_tile_worker",
-    "toasty.multi_wcs.MultiWcsProcessor._tile_parallel",
-    "toasty.multi_wcs._mp_tile_worker",
-    "toasty.pyramid.Pyramid.visit_leaves",
-    "toasty.pyramid.Pyramid.walk",
-    "toasty.progress.progress_bar",
-]
+CONTRACT_MODULES = ['contracts.specfuns', 'contracts.lemmas_desc', 'contracts.pyramid', 'contracts.parallel', 'contracts.walk', 'contracts.reducer', 'contracts.lemmas_embed', 'contracts.generator', 'contracts.image', 'contracts.merge', 'contracts.pyramidio', 'contracts.study', 'contracts.multitan', 'contracts.multiwcs', 'contracts.toastsample', 'contracts.toastgeom', 'contracts.toastgen', 'contracts.progressc', 'contracts.paths', 'contracts.datarange', 'contracts.builderc']
+FUNCTIONS = ['toasty.par_util.ensure_workers_ok', 'toasty.par_util.put_checking_workers', 'toasty.par_util.join_workers', 'toasty.pyramid.Pyramid._walk_serial', 'toasty.pyramid.Pyramid._visit_leaves_serial', 'toasty.transform._do_a_transform', 'toasty.pyramid._mp_walk_worker', 'toasty.pyramid._mp_visit_worker', 'toasty.transform._transform_mp_worker', 'toasty.pyramid.Pyramid._walk_parallel', 'toasty.pyramid.Pyramid._visit_leaves_parallel', 'toasty.transform._transform_parallel', 'toasty.multi_tan.MultiTanProcessor._tile_parallel', 'toasty.multi_tan._mp_tile_worker', 'toasty.multi_wcs.MultiWcsProcessor._tile_parallel', 'toasty.multi_wcs._mp_tile_worker', 'toasty.pyramid.Pyramid.visit_leaves', 'toasty.pyramid.Pyramid.walk', 'toasty.progress.progress_bar', 'toasty.merge.cascade_images', 'toasty.toast.sample_layer', 'toasty.toast.sample_layer_filtered']
 LEMMAS = []
 SLOW = ()
 TRUSTED_BASE = ["pyvc VC generator; z3/cvc5",
